@@ -141,6 +141,13 @@ func genLines(prefixes []string, recs, width int) string {
 				sb = append(sb, '\r')
 			}
 			sb = append(sb, '\n')
+			// insignificant blank lines, also between the rows of one record
+			if (r+li)%3 == 0 {
+				sb = append(sb, '\n')
+			}
+			if (r*3+li)%5 == 0 {
+				sb = append(sb, '\r', '\n')
+			}
 		}
 	}
 	return string(sb)
